@@ -115,6 +115,12 @@ fn gen_policy(ctx: &mut Ctx, db: &mut Db, focus: Focus, name: String) -> Running
             db.broken_as_sets.insert(set.clone(), f);
             p.comment = Some(format!("bgpfu-fltr: {set}"));
         }
+        3 if focus == Focus::C03 && db.reset_on_as_set.is_none() && ctx.pick(3) == 0 => {
+            // the IRR connection breaks while this policy's members query is outstanding
+            let set = ctx.tape.choose(&db.as_sets.keys().cloned().collect::<Vec<_>>()).clone();
+            db.reset_on_as_set = Some(set.clone());
+            p.comment = Some(format!("bgpfu-fltr: {set}"));
+        }
         3 => p.comment = Some(format!("bgpfu-fltr: {}", *ctx.tape.choose(&["AS-FOO AND", "error!", "{ 10.0.0.0/8", "AS65000 ^^ 7", ""]))),
         4 => p.comment = Some(format!("bgpfu-fltr: {}", *ctx.tape.choose(&["PeerAS", "<^AS65000 AS65001*$>", "community(65000:1)", "AS64500 AND <^AS1>", "PeerAS OR AS64501"]))),
         5 => {
@@ -241,9 +247,33 @@ fn mutate_world(ctx: &mut Ctx, w: &mut World, focus: Focus) {
                     w.policies[i].comment = Some("bgpfu-fltr: AS-FOO AND".into());
                 } else {
                     w.db.broken_as_sets.clear();
+                    w.db.reset_on_as_set = None;
                 }
             }
         }
+    }
+}
+
+/// irrc 0.1.0 never returns from `Pipeline::drop` when a query cannot be written to a dead
+/// connection (its drain loop retries the flush for ever). That is in the dependency, outside
+/// the repository; so in a world where the IRR connection breaks during one policy's members
+/// query, the other policies only use literal prefix sets (which need no IRR query).
+fn sanitize_for_io_fault(ctx: &mut Ctx, w: &mut World) {
+    let Some(victim_set) = w.db.reset_on_as_set.clone() else { return };
+    let mut victim_seen = false;
+    for p in &mut w.policies {
+        let Some(expr) = annotation_of(p).map(|e| e.trim().to_string()) else { continue };
+        if expr.eq_ignore_ascii_case(&victim_set) && !victim_seen {
+            victim_seen = true;
+            continue;
+        }
+        let uses_irr = expr.contains("AS") || expr.contains("RS-") || expr.contains("FLTR-") || expr.contains("as") || expr.contains("rs-");
+        if uses_irr && expr.parse::<rpsl::expr::MpFilterExpr>().is_ok() {
+            p.comment = Some(format!("bgpfu-fltr: {}", crate::irrd::gen_literal_set(ctx)));
+        }
+    }
+    if !victim_seen {
+        w.db.reset_on_as_set = None;
     }
 }
 
@@ -346,7 +376,11 @@ pub fn agent_run(ctx: &mut Ctx, hist: &History, w: &World, junos: Junos, irr_ref
     let st = irr.lock().unwrap();
     ctx.count_n("net.irr_short_read", st.short_reads as u64);
     for (_, q, f) in &st.faults_fired {
-        ctx.count(&format!("fault.irr_{f:?}_on_{}", &q[..2.min(q.len())]));
+        if q.starts_with("RESET") {
+            ctx.count("fault.irr_connection_reset_during_members_query");
+        } else {
+            ctx.count(&format!("fault.irr_{f:?}_on_{}", &q[..2.min(q.len())]));
+        }
     }
     if irr_refuse {
         ctx.count("fault.irr_connection_refused");
@@ -490,6 +524,8 @@ pub fn oracle_c03_all(w: &World, obs: &RunObs) -> Vec<(String, String)> {
                     Some("unevaluable-construct")
                 } else if why.contains("does not exist") {
                     Some("as-set-unknown")
+                } else if why.contains("(io)") {
+                    Some("irr-connection-lost")
                 } else {
                     Some("irr-error-response")
                 }
@@ -701,6 +737,7 @@ fn history(ctx: &mut Ctx, focus: Focus) -> Verdict {
                 ev!(ctx, "fault planned: request #{pos} {kind:?}");
             }
         }
+        sanitize_for_io_fault(ctx, &mut w);
         let (obs, j2) = agent_run(ctx, &hist, &w, junos, irr_refuse);
         junos = j2;
         for s in &obs.sessions {
